@@ -37,6 +37,8 @@ from srcfuns import Unsupported, dec_pair, UNARY, BINARY, BINOP, PI_LITS
 
 STRIP = ("ParenExpr", "MaterializeTemporaryExpr", "ExprWithCleanups", "CXXBindTemporaryExpr", "ConstantExpr",
          "CXXFunctionalCastExpr", "CXXStaticCastExpr", "SubstNonTypeTemplateParmExpr")
+ROMEA_ALIAS_DIMS = {"CartesianCoordinates2<double>": (2, 1), "CartesianCoordinates3<double>": (3, 1),
+                    "CartesianCoordinates2d": (2, 1), "CartesianCoordinates3d": (3, 1), "CartesianPoint2d": (2, 1), "CartesianPoint3d": (3, 1)}
 ALIAS_DIMS = {"Vector3d": (3, 1), "Matrix3d": (3, 3), "Matrix6d": (6, 6), "Vector2d": (2, 1), "Matrix2d": (2, 2),
               "RowVector3d": (1, 3), "RowVector2d": (1, 2), "Vector6d": (6, 1), "Matrix4d": (4, 4), "Vector4d": (4, 1)}
 ACCESSOR_DIMS = {"rotation": (3, 3), "linear": (3, 3), "translation": (3, 1)}     # of Eigen::Transform<double, 3, ...>
@@ -82,6 +84,7 @@ class Mat:
         self.base, self.i0, self.j0 = self, 0, 0
         self.frozen = False
         self.tr_of = None
+        self.outlined = False
 
     def get(self, i, j):
         if not (0 <= i < self.r and 0 <= j < self.c):
@@ -175,6 +178,9 @@ def mat_dims(ty):
         m = re.match(r"^Eigen::(\w+)$", s)
         if m and m.group(1) in ALIAS_DIMS:
             return ALIAS_DIMS[m.group(1)]
+        m = re.match(r"^(?:romea::core::)?(\w+(?:<double>)?)$", s)
+        if m and m.group(1) in ROMEA_ALIAS_DIMS:
+            return ROMEA_ALIAS_DIMS[m.group(1)]
     return None
 
 
@@ -365,6 +371,8 @@ class Ev:
         for i in range(target.r):
             for j in range(target.c):
                 target.set(i, j, e[i][j])
+        if target.base is target:
+            target.outlined = bool(getattr(value, "outlined", False))     # the whole matrix is the value of an outlined expression
 
     # ------------------------------------------------------------------ environment
     def scopes(self):
@@ -988,7 +996,9 @@ class Ev:
             " ".join("(%s : nat -> nat -> T)" % x for _, _, x in distinct), body))
         name = self.fresh(hint)
         self.lets.append((name, "(%s N %s)" % (aux, " ".join(names))))
-        return fresh_mat([[A("(%s %s %s)" % (name, nat(i), nat(j))) for j in range(v.c)] for i in range(v.r)])
+        res = fresh_mat([[A("(%s %s %s)" % (name, nat(i), nat(j))) for j in range(v.c)] for i in range(v.r)])
+        res.outlined = True
+        return res
 
     # ---- quaternions: the formulas of Eigen/src/Geometry/Quaternion.h (3.4)
     def to_quat(self, v):
@@ -1124,20 +1134,12 @@ class Ev:
                     d = cands[0] if len(cands) == 1 else None
             if d is not None:
                 return self.inline(d, args, base)
-            if base.free is not None and not args:
+            if base.free is not None and not args and nm in ACCESSOR_DIMS and re.search(r"Transform<double, 3|Affine3d|Isometry3d", base.cls):
+                # accessors of an Eigen::Transform parameter: free variables (rotation() of a rigid transform is its linear part)
                 key, path, sig = base.free
                 fname = "()" + nm
                 if fname not in base.fields:
-                    dims = ACCESSOR_DIMS.get(nm) if "Transform<double, 3" in "".join(type_strings(c["inner"][0].get("type", {}))) or \
-                        "Affine3d" in "".join(type_strings(c["inner"][0].get("type", {}))) else None
-                    if dims is None:
-                        dims = mat_dims(n.get("type", {}))
-                    if dims is not None:
-                        base.fields[fname] = self.free_matrix(key + (fname,), path + "_" + nm, dims, sig + "." + nm + "()")
-                    elif is_scalar_type(n.get("type", {})):
-                        base.fields[fname] = self.free_scalar(key + (fname,), path + "_" + nm, sig + "." + nm + "()")
-                    else:
-                        raise Unsupported("accessor %s() of unknown result type" % nm)
+                    base.fields[fname] = self.free_matrix(key + (fname,), path + "_" + nm, ACCESSOR_DIMS[nm], sig + "." + nm + "()")
                 return base.fields[fname]
             raise Unsupported("method %s of %s" % (nm, base.cls))
         raise Unsupported("member call %s on %s" % (nm, type(base).__name__))
@@ -1285,7 +1287,7 @@ class Ev:
         return obj
 
     def run_ctor(self, obj, cls, ctor_type, args, hint):
-        short = cls.split("::")[-1]
+        short = re.sub(r"<.*>$", "", cls).split("::")[-1]
         summ = self.summaries.get((short, ctor_type))
         if summ is not None:
             vals = [self.bind_scalar("arg", self.scalar(self.ev(a))) for a in args]
@@ -1321,9 +1323,20 @@ class Ev:
                     v = m
                 elif isinstance(v, str):
                     v = self.bind_scalar(f["name"], v)
+                if f["name"] in getattr(self, "base_fields", ()):
+                    raise Unsupported("member %s hides a base-class member" % f["name"])
                 obj.fields[f["name"]] = v
+            elif "baseInit" in ci:
+                # the base-class sub-object shares the object's field table (a derived class hiding a base member is refused)
+                e = self.strip(init[0]) if init else {}
+                if e.get("kind") != "CXXConstructExpr":
+                    raise Unsupported("base-class initialiser")
+                before = set(obj.fields)
+                self.run_ctor(obj, clean_type(ci["baseInit"].get("qualType", "")), e.get("ctorType", {}).get("qualType"),
+                              [a for a in e.get("inner", []) if isinstance(a, dict)], None)
+                self.base_fields = getattr(self, "base_fields", set()) | (set(obj.fields) - before)
             else:
-                raise Unsupported("base-class initialiser")
+                raise Unsupported("constructor initialiser")
 
     # ------------------------------------------------------------------ statements
     def block(self, n, new_scope=True):
